@@ -1727,6 +1727,10 @@ class Kconfig(object):
         elif sym.orig_type in _INT_HEX_FLOAT:
             if sym.orig_type == HEX and not val.startswith(("0x", "0X")):
                 val = "0x" + val
+            elif sym.orig_type == INT and _is_base_n(val, 10):
+                # A decimal value keeps the form the user typed ("010"); in C a
+                # leading zero would turn it into an octal literal (8).
+                val = str(int(val, 10))
             return f"#define {self.config_prefix}{sym.name} {val}\n"
         else:
             return ""
